@@ -117,11 +117,17 @@ pub struct Isolation {
     pub max_deaths: usize,
 }
 
+/// an open case whose process has used no CPU for this long is blocked, not slow
+const STALL_SECONDS: u64 = 30;
+
 #[derive(Debug)]
 pub enum Death {
     Signal(i32, String),
     Exit(i32, String),
     CpuTimeout(f64),
+    /// the open case used no CPU time at all for this many wall-clock seconds: the process is
+    /// blocked (a lock taken twice, a lock-order inversion), which no CPU budget can notice
+    Stalled(f64),
     WallTimeout,
 }
 
@@ -234,6 +240,7 @@ fn supervise_once(ctx: &Ctx, set: &dyn CaseSet, iso: &Isolation, from: usize, to
         tail
     });
     let mut open: Option<(usize, f64, Instant)> = None; // idx, cpu at begin, wall at begin
+    let mut progress: (f64, Instant) = (0.0, Instant::now()); // last CPU reading that differed, when
     let mut acc = Acc::default();
     let mut finished = false;
     let mut killed: Option<Death> = None;
@@ -243,6 +250,7 @@ fn supervise_once(ctx: &Ctx, set: &dyn CaseSet, iso: &Isolation, from: usize, to
                 if let Some(rest) = line.strip_prefix("B ") {
                     let idx: usize = rest.trim().parse().unwrap_or(from);
                     open = Some((idx, proc_cpu_seconds(pid).unwrap_or(0.0), Instant::now()));
+                    progress = (open.as_ref().unwrap().1, Instant::now());
                 } else if let Some(rest) = line.strip_prefix("E ") {
                     let mut it = rest.splitn(2, ' ');
                     let _idx = it.next();
@@ -270,7 +278,15 @@ fn supervise_once(ctx: &Ctx, set: &dyn CaseSet, iso: &Isolation, from: usize, to
             }
             Err(mpsc::RecvTimeoutError::Timeout) => {
                 if let Some((idx, cpu0, wall0)) = &open {
-                    let cpu = proc_cpu_seconds(pid).unwrap_or(*cpu0) - cpu0;
+                    let now_cpu = proc_cpu_seconds(pid).unwrap_or(*cpu0);
+                    if now_cpu > progress.0 + 0.015 {
+                        progress = (now_cpu, Instant::now());
+                    } else if progress.1.elapsed() > Duration::from_secs(STALL_SECONDS) {
+                        let _ = child.kill();
+                        killed = Some(Death::Stalled(progress.1.elapsed().as_secs_f64()));
+                        break;
+                    }
+                    let cpu = now_cpu - cpu0;
                     if cpu > set.cpu_budget_s(*idx) {
                         let _ = child.kill();
                         killed = Some(Death::CpuTimeout(cpu));
